@@ -245,8 +245,13 @@ impl World {
   /// export src, import into dst (a fresh, differently keyed instance when dst == len)
   pub fn sync(&mut self, src: usize, dst: usize) {
     self.ops.push(format!("y:{}:{}", src, dst));
-    self.obs.push("done".into());
     let bytes = export(&self.servers[src]);
+    // the exported bytes themselves (digest): nothing beyond what the model encodes may be in them
+    let mut h: u64 = 0xcbf29ce484222325;
+    for b in &bytes {
+      h = (h ^ *b as u64).wrapping_mul(0x100000001b3);
+    }
+    self.obs.push(format!("done#{:016x}", h));
     if dst == self.servers.len() {
       let mut fresh = Server::new(vec![9, 200]).expect("server");
       import_into(&mut fresh, &bytes);
